@@ -342,6 +342,26 @@ theorem delete_can_overestimate :
   · rw [← bstB_iff]; decide
   · rw [← augLeB_iff]; decide
 
+/-- **and an overestimate below the root makes the query hide a visible cell.**  This seven-node tree is
+    what the real `_insert_into_tree` / `_delete_from_tree` leave after 21 operations on keys 1..7 with
+    minimum gradients (0,2,0,1,0,0,1) (corpus/C05/tree-wrong-answer-7keys.json, replayed against the real
+    code on every run): node 5 -- the left child of the root -- stores 1 although every node below it has
+    gradient 0.  The cell with key 7 and gradient 1/2 is in line of sight (all nearer cells have gradient 0),
+    yet the query answers 1 > 1/2: invisible.  The sequence re-inserts keys; no sweep of a terrain has been
+    found that reaches such a state (see design_notes/C05.md). -/
+theorem status_tree_can_hide_a_visible_cell :
+    ∃ (t : Viewshed.Tree ℚ) (K ang g : ℚ), BST t ∧ ¬ AugLeQ (-9) t ∧
+      (∀ n ∈ t.toList, n.key < K → spans n ang = true ∨ minv n ≤ g) ∧
+      visL t.toList K ang g = true ∧ visT (-9) t K ang g = false := by
+  let f : ℚ → ℚ → Node ℚ := fun k v => ⟨k, v, v, v, 0, 1, 2⟩
+  refine ⟨.node (.node (.node (.node .nil (f 0 (-9)) 0 false (.node .nil (f 1 0) 0 true .nil)) (f 3 0) 0 false .nil)
+            (f 5 0) 1 true .nil) (f 6 0) 1 false (.node .nil (f 7 1) 1 true .nil), 7, 1, 1/2, ?_, ?_, ?_, ?_, ?_⟩
+  · rw [← bstB_iff]; decide +kernel
+  · rw [← augLeQB_iff]; decide +kernel
+  · decide +kernel
+  · decide +kernel
+  · decide +kernel
+
 /-! ### 4. facts read from the source on every run -/
 
 /-- `_rb_insert_fixup` / `_rb_delete_fixup` store only to colour fields and call only the two rotations;
